@@ -2829,13 +2829,18 @@ class Parameters:
             self_._events = []
             self_._state_watchers = []
 
-            for watcher in sorted(watchers, key=lambda w: w.precedence):
-                events = [self_._update_event_type(watcher, event_dict[(name, watcher.what)],
-                                                   self_._TRIGGER)
-                          for name in watcher.parameter_names
-                          if (name, watcher.what) in event_dict]
-                with _batch_call_watchers(self_.self_or_cls, enable=watcher.queued, run=False):
-                    self_._execute_watcher(watcher, events)
+            try:
+                for watcher in sorted(watchers, key=lambda w: w.precedence):
+                    events = [self_._update_event_type(watcher, event_dict[(name, watcher.what)],
+                                                       self_._TRIGGER)
+                              for name in watcher.parameter_names
+                              if (name, watcher.what) in event_dict]
+                    with _batch_call_watchers(self_.self_or_cls, enable=watcher.queued, run=False):
+                        self_._execute_watcher(watcher, events)
+            except BaseException:
+                # Do not leave behind what the failing round has queued
+                self_._batch_call_watchers()
+                raise
     # Please update the docstring with better description and examples
     # I've (MarcSkovMadsen) not been able to understand this. Its probably because I lack context.
     # Its not mentioned in the documentation.
